@@ -284,6 +284,44 @@ Definition c02_solve_chk (A : seq (seq F)) (b : seq F) (doPivoting : bool) : c02
 Definition c02_invert_chk (A : seq (seq F)) (doPivoting : bool) : c02_res (seq (seq F)) :=
   if negb (Nat.eqb (c02_rows A) 3) && c02_chk_singular A then C02_FMatrixError else c02_invert A doPivoting.
 
+(* ---- solve(x, x): the right-hand side aliases the result vector, THE CODE AS IT IS.  n = 1 and the LU path (`rhs = b; // copy
+   data` is a self-assignment, everything after works on rhs) are unaffected; the closed forms n = 2, 3 write x[0] (x[1])
+   and then read "b[0]" ("b[1]") again, which by then holds the result.  (fixes/C02-2.patch reads b first; the patched code
+   is c02_solve itself.) *)
+Definition c02_solve_aliased (A : seq (seq F)) (b : seq F) (doPivoting : bool) : c02_res (seq F) :=
+  let n := c02_rows A in let a := c02_get A in let bb := c02_vget b in
+  if negb (Nat.eqb n (c02_cols A)) then C02_FMatrixError
+  else if Nat.eqb n 2 then
+    let detinv := sub (mul (a 0 0) (a 1 1)) (mul (a 0 1) (a 1 0)) in
+    match c02_div one detinv with
+    | None => C02_DivByZero
+    | Some di => let x0 := mul di (sub (mul (a 1 1) (bb 0)) (mul (a 0 1) (bb 1))) in
+                 C02_Ok [:: x0; mul di (sub (mul (a 0 0) (bb 1)) (mul (a 1 0) x0))]
+    end
+  else if Nat.eqb n 3 then
+    let d := c02_det3 A in
+    let m3 x y z := mul (mul x y) z in
+    let num0 b0 b1 b2 := sub (add (add (sub (sub (m3 b0 (a 1 1) (a 2 2)) (m3 b0 (a 2 1) (a 1 2)))
+                   (m3 b1 (a 0 1) (a 2 2))) (m3 b1 (a 2 1) (a 0 2)))
+                   (m3 b2 (a 0 1) (a 1 2))) (m3 b2 (a 1 1) (a 0 2)) in
+    let num1 b0 b1 b2 := sub (add (add (sub (sub (m3 (a 0 0) b1 (a 2 2)) (m3 (a 0 0) b2 (a 1 2)))
+                   (m3 (a 1 0) b0 (a 2 2))) (m3 (a 1 0) b2 (a 0 2)))
+                   (m3 (a 2 0) b0 (a 1 2))) (m3 (a 2 0) b1 (a 0 2)) in
+    let num2 b0 b1 b2 := sub (add (add (sub (sub (m3 (a 0 0) (a 1 1) b2) (m3 (a 0 0) (a 2 1) b1))
+                   (m3 (a 1 0) (a 0 1) b2)) (m3 (a 1 0) (a 2 1) b0))
+                   (m3 (a 2 0) (a 0 1) b1)) (m3 (a 2 0) (a 1 1) b0) in
+    match c02_div (num0 (bb 0) (bb 1) (bb 2)) d with
+    | None => C02_DivByZero
+    | Some x0 => match c02_div (num1 x0 (bb 1) (bb 2)) d with
+                 | None => C02_DivByZero
+                 | Some x1 => match c02_div (num2 x0 x1 (bb 2)) d with
+                              | None => C02_DivByZero
+                              | Some x2 => C02_Ok [:: x0; x1; x2]
+                              end
+                 end
+    end
+  else c02_solve A b doPivoting.
+
 (* ---- FMatrixHelp::invertMatrix / invertMatrix_retTransposed (n = 1,2,3): returns (det, inverse) *)
 Definition c02_transpose (n : nat) (B : seq (seq F)) : seq (seq F) := mkseq (fun i => mkseq (fun j => c02_get B j i) n) n.
 
